@@ -41,6 +41,7 @@ FEATURES = [
     "MEMBER_ACCESS",
     "DEEP_PACKAGE",
     "NAME_ECHO",
+    "TRAILING_UNDERSCORE",
 ]
 
 DOC_STYLES = ["PLAINTEXT", "NUMPYDOC", "GOOGLE", "REST"]
@@ -567,6 +568,14 @@ class PackageGenerator:
                 m.all_classes.append("Item")
                 m.public_classes.append("Item")
                 m.body.append(self.gen_function(m, "make_item", m.qname))
+            for m in (m1, m2):
+                # referenced in an expression, so both homonyms enter the package-wide alias table
+                m.body.append("DEFAULT_ITEM_CLASS = Item\n")
+            mv = self.new_module(top, "homo_via_module")
+            via = r.choice([m1, m2])
+            mv.add_import(f"import {via.qname} as homo_mod")
+            mv.body.append("class ViaModule(homo_mod.Item):\n    def again(self, it: homo_mod.Item) -> homo_mod.Item:\n        ...\n")
+            mv.all_classes.append("ViaModule")
             m3 = self.new_module(top, "homo_user")
             src = r.choice([m1, m2])
             m3.add_import(f"from {src.qname} import Item")
@@ -629,8 +638,13 @@ class PackageGenerator:
             args_sig = ", *args: int" if self.f("VARARGS") else ""
             tok = self.tokens.new("F", f"{mb.qname}._Base.shared")
             docline = f'        """Shared {tok}."""\n' if self.f("DOCS") else ""
+            two_level = r.random() < 0.6
+            if two_level:
+                # a private base of the private base: its public members surface in the public subclasses as well
+                mb.body.append("class _Root:\n    def rooted(self, n: int = 1) -> int:\n        ...\n\n    root_attr: int = 0\n")
+                mb.all_classes.append("_Root")
             mb.body.append(
-                "class _Base:\n"
+                f"class _Base{'(_Root)' if two_level else ''}:\n"
                 f"    def shared(self, mode: {lit} = None{args_sig}) -> {lit}:\n"
                 f"{docline}"
                 "        ...\n\n"
@@ -650,7 +664,7 @@ class PackageGenerator:
                 mo.body.append("class PubThree(_Base):\n    def own_three(self, v: int = 3) -> None:\n        pass\n")
                 mo.all_classes.append("PubThree")
                 group.append(f"{mo.qname}.PubThree")
-            self.probes["inherit_groups"].append({"base": f"{mb.qname}._Base", "subs": group, "members": ["shared", "other"]})
+            self.probes["inherit_groups"].append({"base": f"{mb.qname}._Base", "subs": group, "members": ["shared", "other"] + (["rooted"] if two_level else [])})
 
         if self.f("TYPEVARS"):
             mt = self.new_module(top, "generic_mod")
@@ -689,6 +703,19 @@ class PackageGenerator:
             mp.body.append(self.gen_function(mp, pre, mp.qname))
             self.inits[top].append(f"from {mp.qname} import {pre}")
             self.probes.setdefault("name_echo", []).append({"package": pk, "names": [echo, pre]})
+
+        if self.f("TRAILING_UNDERSCORE"):
+            # names that end in underscores (the usual way to avoid keywords/builtins): modules, re-exported declarations
+            mt_ = self.new_module(r.choice(pkgs), r.choice(["types_", "filter_", "_compat_"]))
+            self.fill_module(mt_, 1, 1)
+            mu_ = self.new_module(f"{top}.{sub_a}", "_under")
+            mu_.body.append(self.gen_function(mu_, "filter_", mu_.qname))
+            mu_.body.append(self.gen_class(mu_, "Range_", None, n_methods=1))
+            mu_.all_classes.append("Range_")
+            self.inits[f"{top}.{sub_a}"].append(f"from {mu_.qname} import filter_")
+            self.inits[r.choice([top, f"{top}.{sub_a}"])].append(f"from {mu_.qname} import Range_")
+            if r.random() < 0.5:
+                self.inits[top].append(f"from {top}.{sub_a} import _under as under_")
 
         if self.f("UNDERSCORE_TWIN"):
             pk = r.choice(pkgs)
